@@ -62,18 +62,31 @@ def run_scenario(run, e4, sc):
     user, uid = sc["user"]
     group, gid = sc["group"]
     settings = {"graceful_timeout": 3, "timeout": 3}
+    source = sc.get("source", "file")
+    opts = []
     if user is not None:
-        settings["user"] = user
+        if source == "file":
+            settings["user"] = user
+        else:
+            opts += ["--user", str(user)]
     if group is not None:
-        settings["group"] = group
+        if source == "file":
+            settings["group"] = group
+        else:
+            opts += ["--group", str(group)]
     if sc["initgroups"]:
-        settings["initgroups"] = True
+        if source == "file":
+            settings["initgroups"] = True
+        else:
+            opts += ["--initgroups"]
     if wc == "gthread":
         settings["threads"] = 2
     both = user is not None and group is not None
     want_uid = uid if uid is not None else os.geteuid()
     want_gid = gid if gid is not None else os.getegid()
-    srv = e4.Server("c20", worker_class=wc, workers=2, settings=settings, bind=sc["bind"])
+    srv = e4.Server("c20", worker_class=wc, workers=2, settings=settings, bind=sc["bind"],
+                    env={"GUNICORN_CMD_ARGS": " ".join(opts)} if (source == "env" and opts) else None,
+                    argv_extra=opts if source == "cli" else None)
     pidfile = os.path.join(srv.dir, "m.pid")
     srv.write_conf(pidfile=pidfile)
     try:
@@ -216,7 +229,7 @@ def scenarios(tier, seed):
     chosen = must + [c for c in cells if c not in must][:max(0, n - len(must))]
     for i, (u, g, ig) in enumerate(chosen):
         out.append({"user": list(u), "group": list(g), "initgroups": ig, "class": classes[i % 4],
-                    "bind": "unix" if i % 2 else "tcp", "idx": i})
+                    "bind": "unix" if i % 2 else "tcp", "idx": i, "source": ["file", "env", "cli", "file"][(i + i // 4) % 4]})
     return out
 
 
@@ -229,10 +242,11 @@ def shard(sh):
         v, reason, info = run_scenario(run, e4, sc)
         if reason is None or v:
             break
-    run.case(json.dumps({k: sc[k] for k in ("user", "group", "initgroups", "class", "bind")}, sort_keys=True),
+    run.case(json.dumps({k: sc.get(k) for k in ("user", "group", "initgroups", "class", "bind", "source")}, sort_keys=True),
              nontrivial=sc["user"][0] is not None or sc["group"][0] is not None)
     run.count("scenarios")
     run.count("class/" + sc["class"])
+    run.count("source/" + sc.get("source", "file"))
     if sc["initgroups"]:
         run.count("initgroups_scenarios")
     for mech, summary in v:
@@ -256,7 +270,7 @@ def main(tier, seed):
     run.require("scenarios", "worker_id_checks", "generation/initial", "generation/respawn", "generation/reload", "generation/ttin",
                 "generation/upgrade", "application_id_checks", "initgroups_group_checks", "heartbeat_checks",
                 "master_identity_checks", "unix_socket_owner_checks", "class/sync", "class/gthread", "class/gevent",
-                "class/eventlet")
+                "class/eventlet", "source/file", "source/env", "source/cli")
     shards = [{"scenario": sc, "seed": seed, "tier": tier} for sc in scenarios(tier, seed)]
     run.assumptions = [
         "without initgroups the supplementary groups are not judged (the statement specifies them only with initgroups)",
